@@ -1,7 +1,7 @@
 /-
   C01, fragment 𝔽₂ — simulation of statements: induction on the fuel of the C execution.
 -/
-import CprocVerif.Lemmas.Lower2If
+import CprocVerif.Lemmas.Lower2For
 import CprocVerif.Lemmas.Lower2IncDec
 
 set_option linter.unusedSimpArgs false
@@ -10,18 +10,33 @@ namespace CprocVerif.LowerMach2
 open CprocVerif.Qbe CprocVerif.Lower CprocVerif.Lower2 CprocVerif.CSem CprocVerif.CSem2 CprocVerif.CInt
 open CprocVerif.LowerArith CprocVerif.LowerMach CprocVerif.LowerMem
 
+/-- every statement form is covered -/
+theorem frag_all (st : Stmt) : frag st = true := by
+  induction st with
+  | seq a b iha ihb => simp [frag, iha, ihb]
+  | ite e a iha => simpa [frag] using iha
+  | itee e a b iha ihb => simp [frag, iha, ihb]
+  | while_ e b ihb => simpa [frag] using ihb
+  | dowhile b e ihb => simpa [frag] using ihb
+  | for_ e st b ihs ihb => simp [frag, ihs, ihb]
+  | _ => rfl
+
 section
 variable (T : Stat)
 
 /-- Every execution of a statement of the fragment is simulated. -/
 theorem sim_stmt : ∀ fuel, SimStmt T fuel := by
   intro fuel
-  induction fuel with
+  induction fuel using Nat.strongRecOn with
+  | ind fuel ihs =>
+  cases fuel with
   | zero =>
     intro st s out lp brk cont c nd nd' pre post env M hex
     simp only [exec] at hex
     cases hex
-  | succ n ih =>
+  | succ n =>
+    have ih : SimStmt T n := ihs n (Nat.lt_succ_self n)
+    have ihle : ∀ m, m ≤ n → SimStmt T m := fun m hm => ihs m (Nat.lt_succ_of_le hm)
     intro st s out lp brk cont c nd nd' pre post env M hex hfr hwt hp hext hits hlp inv
     cases st with
     | skip => exact sim_skip T n hex hp inv
@@ -36,9 +51,9 @@ theorem sim_stmt : ∀ fuel, SimStmt T fuel := by
     | seq a b => exact sim_seq T n ih a b hex hfr hwt hp hext hits hlp inv
     | ite e a => exact sim_ite T n ih e a hex hfr hwt hp hext hits hlp inv
     | itee e a b => exact sim_itee T n ih e a b hex hfr hwt hp hext hits hlp inv
-    | while_ e b => simp [frag] at hfr
-    | dowhile b e => simp [frag] at hfr
-    | for_ e step b => simp [frag] at hfr
+    | while_ e b => exact sim_while T n ihle e b hex hfr hwt hp hext hits inv
+    | dowhile b e => exact sim_dowhile T n ihle b e hex hfr hwt hp hext hits inv
+    | for_ e step b => exact sim_for T n ihle e step b hex hfr hwt hp hext hits inv
     | break_ => exact sim_break T n hex hwt hp inv
     | continue_ => exact sim_continue T n hex hwt hp inv
 
